@@ -169,8 +169,11 @@ Qed.
 
 Section StmtsLoop.
   Variable fixed : bool.
-  Variable rec : loader -> bytes -> bytes -> vars -> outcome loader.
+  (* [rec reading' l path content vs] reads an included file; [reading] are the canonical names
+     of the files being read right now (fix for F20) *)
+  Variable rec : list bytes -> loader -> bytes -> bytes -> vars -> outcome loader.
   Variable fs : list (bytes * bytes).
+  Variable reading : list bytes.
   Variables buf filename : bytes.
 
 Fixpoint stmts_loop (n : nat) (l : loader) (s : scanner) (vs : vars) : outcome loader :=
@@ -189,10 +192,13 @@ Fixpoint stmts_loop (n : nat) (l : loader) (s : scanner) (vs : vars) : outcome l
         do r <- evaluate_path l p [vars_env vs];
         let '(l, id) := r in
         let path := file_nm l id in
+        if existsb (bytes_eqb path) reading
+        then Err (filename ++ bs ": " ++ path ++ bs " includes itself")
+        else
         match assoc_b path fs with
         | None => Err (bs "read " ++ path ++ bs ": No such file or directory (os error 2)")
         | Some content =>
-          do l <- rec l path content vs;
+          do l <- rec (reading ++ [path]) l path content vs;
           stmts_loop n l s vs
         end
       | SDefault ds =>
@@ -209,18 +215,25 @@ Fixpoint stmts_loop (n : nat) (l : loader) (s : scanner) (vs : vars) : outcome l
   end.
 End StmtsLoop.
 
-Lemma parse_file_unfold fixed depth fs l filename text inherited :
-  parse_file fixed (S depth) fs l filename text inherited =
+Lemma parse_file_r_unfold fixed depth fs reading l filename text inherited :
+  parse_file_r fixed (S depth) fs reading l filename text inherited =
   (do s0 <- sc_new (text ++ [0%N]);
-   stmts_loop fixed (parse_file fixed depth fs) fs (text ++ [0%N]) filename
+   stmts_loop fixed (parse_file_r fixed depth fs) fs reading (text ++ [0%N]) filename
               (S (length (text ++ [0%N]))) l s0 inherited).
 Proof. reflexivity. Qed.
 
-Lemma stmts_loop_safe text filename fs rec :
-  (forall l p c vs, lsafe (rec l p c vs)) ->
+Lemma parse_file_unfold fixed depth fs l filename text inherited :
+  parse_file fixed (S depth) fs l filename text inherited =
+  (do s0 <- sc_new (text ++ [0%N]);
+   stmts_loop fixed (parse_file_r fixed depth fs) fs [] (text ++ [0%N]) filename
+              (S (length (text ++ [0%N]))) l s0 inherited).
+Proof. reflexivity. Qed.
+
+Lemma stmts_loop_safe text filename fs reading rec :
+  (forall rd l p c vs, lsafe (rec rd l p c vs)) ->
   forall n l s vs,
     good_scanner text s -> length text + 2 <= n + sofs s ->
-    lsafe (stmts_loop true rec fs (text ++ [0%N]) filename n l s vs).
+    lsafe (stmts_loop true rec fs reading (text ++ [0%N]) filename n l s vs).
 Proof.
   intro Hrec.
   induction n as [|n IH]; intros l s vs Hg Hn.
@@ -236,10 +249,12 @@ Proof.
     + eapply lsafeq_bind; [apply loader_add_build_safe|]. intros l1 _. apply IH; assumption.
     + eapply lsafeq_bind; [apply evaluate_paths_ok|]. intros [l1 ids] _. apply IH; assumption.
     + eapply lsafeq_bind; [apply evaluate_path_ok|]. intros [l1 id] _.
-      cbv zeta. destruct (assoc_b (file_nm l1 id) fs) as [content|]; [|exact I].
+      cbv zeta. destruct (existsb (bytes_eqb (file_nm l1 id)) reading); [exact I|].
+      destruct (assoc_b (file_nm l1 id) fs) as [content|]; [|exact I].
       eapply lsafeq_bind; [apply Hrec|]. intros l2 _. apply IH; assumption.
     + eapply lsafeq_bind; [apply evaluate_path_ok|]. intros [l1 id] _.
-      cbv zeta. destruct (assoc_b (file_nm l1 id) fs) as [content|]; [|exact I].
+      cbv zeta. destruct (existsb (bytes_eqb (file_nm l1 id)) reading); [exact I|].
+      destruct (assoc_b (file_nm l1 id) fs) as [content|]; [|exact I].
       eapply lsafeq_bind; [apply Hrec|]. intros l2 _. apply IH; assumption.
     + apply IH; assumption.
   - exact I.
@@ -247,17 +262,21 @@ Proof.
     rewrite E. exact I.
 Qed.
 
-Lemma parse_file_safe fs : forall depth l filename text inherited,
-  lsafe (parse_file true depth fs l filename text inherited).
+Lemma parse_file_r_safe fs : forall depth reading l filename text inherited,
+  lsafe (parse_file_r true depth fs reading l filename text inherited).
 Proof.
-  induction depth as [|depth IH]; intros l filename text inherited.
+  induction depth as [|depth IH]; intros reading l filename text inherited.
   - cbn. right; reflexivity.
-  - rewrite parse_file_unfold. rewrite sc_new_nul. cbn [bind].
+  - rewrite parse_file_r_unfold. rewrite sc_new_nul. cbn [bind].
     apply stmts_loop_safe.
-    + intros l' p c vs. apply IH.
+    + intros rd l' p c vs. apply IH.
     + apply good_scanner_initial.
     + rewrite app_length. cbn. lia.
 Qed.
+
+Lemma parse_file_safe fs depth l filename text inherited :
+  lsafe (parse_file true depth fs l filename text inherited).
+Proof. apply parse_file_r_safe. Qed.
 
 (* T3 *)
 Lemma manifest_safe : forall depth fs name text,
@@ -289,3 +308,11 @@ Proof.
   pose proof (parse_file_safe fs depth l (c :: r) text []) as H'. rewrite H in H'.
   cbn in H'. destruct H' as [H'|H']; discriminate.
 Qed.
+
+(* F20 (after the fix): a manifest that includes itself is rejected with a diagnostic; the depth
+   fuel is not reached *)
+Lemma include_cycle_rejected :
+  load_manifest true 5 [(bs "build.ninja", bs "include build.ninja" ++ [10%N])] (bs "build.ninja")
+    (bs "include build.ninja" ++ [10%N])
+  = Err (bs "build.ninja: build.ninja includes itself").
+Proof. vm_compute. reflexivity. Qed.
